@@ -45,14 +45,16 @@ func (a *arrayAppendStrategy) evaluate(m *MethodEvaluator) error {
 		arrayT.AppendArrayVariant(*evaluatedArgs[0])
 	}
 
-	base.SetValueT(
-		m.ctx.GetFrame(),
-		m.ctx.GetClass(),
-		m.ctx.GetMethod(),
-		arrayT.GetBeforeEvaluateCode(),
-		arrayT,
-		m.ctx.IsDefineStatic,
-	)
+	if arrayT.GetBeforeEvaluateCode() != "" {
+		base.SetValueT(
+			m.ctx.GetFrame(),
+			m.ctx.GetClass(),
+			m.ctx.GetMethod(),
+			arrayT.GetBeforeEvaluateCode(),
+			arrayT,
+			m.ctx.IsDefineStatic,
+		)
+	}
 
 	m.parser.SetLastEvaluatedT(arrayT)
 
